@@ -121,9 +121,11 @@ def retryV1AsFound {E D M : Type} (dst : M → Nat) (fetch : E → Outcome (List
 /-! ### Substrate RetryEventHandler (as repaired): per retry event closure, per deposit closure -/
 
 /-- `blockOf e`: `DecodeRetryEvent`, confirmation check, `GetBlockHash`, `GetBlockEvents` — `ok ds` the deposits of the
-    retried block, `err` = the retried block is not final yet (skipped), `panic` recovered by the event's closure.
-    `abort e`: the retry event itself cannot be decoded or an RPC call fails — `HandleEvents` returns the error before
-    anything is sent (`none`) and the listener runs the same range again. -/
+    retried block; `err` = the retry event is skipped: it cannot be decoded (after `fix:` 575328e; it used to fail the
+    whole range) or the retried block is not final yet; `panic` recovered by the event's closure.
+    `abort e`: the NODE fails while the retried block is resolved (`GetBlockHash` / `GetBlockEvents` error) —
+    `HandleEvents` returns the error before anything is sent (`none`) and the listener runs the same range again; this is
+    the only way left for one retry event to hold back the others, and it is transient by nature (C05's subject). -/
 def subRetry {E D M : Type} (dst : M → Nat) (blockOf : E → Outcome (List D)) (abort : E → Bool) (h : D → Outcome M)
     (evs : List E) : Option (DMap M) :=
   if evs.any abort then none else some (evs.foldl (perEvent dst blockOf h) DMap.empty)
